@@ -74,6 +74,14 @@ func (r *Report) role(name string, members []string) {
 // floor: the number of instances a rule found must not fall below the number
 // confirmed by hand (a rule that matches nothing passes vacuously forever).
 func (r *Report) floor(name string, got, min int) {
+	for i := range r.Floors {
+		if r.Floors[i].Name == name {
+			if got < r.Floors[i].Got {
+				r.Floors[i].Got = got
+			}
+			return
+		}
+	}
 	r.Floors = append(r.Floors, floorCheck{name, got, min})
 }
 
